@@ -3302,6 +3302,14 @@ impl<'a> Visitor<'a, '_, Error> for JSONValidator<'a> {
               n
             )),
           },
+          // an integer above i64::MAX is above (and different from) any negative controller
+          None if n.is_u64() => match &self.state.ctrl {
+            Some(ControlOperator::NE)
+            | Some(ControlOperator::DEFAULT)
+            | Some(ControlOperator::GT)
+            | Some(ControlOperator::GE) => None,
+            _ => Some(format!("expected value {}, got {}", v, n)),
+          },
           None => Some(format!("{} cannot be represented as an i64", n)),
         },
         _ => Some(format!("expected value {}, got {}", v, self.json)),
